@@ -132,6 +132,12 @@ def run(repo):
                                  '%s uses `%s`: the cones of a program have different sizes, so a stride, width or count '
                                  'taken from one of them describes the others wrongly' % (fi.fq, ntext(n)),
                                  repo.where(fi, n), {'props': ['C16', 'C07', 'C18']}))
+    # (d) an "any of the items" flag: initialised to a constant before a loop, switched inside it, read after it.  Inside
+    #     the loop it may only be *set* to a constant under a test; an unconditional assignment from the current item
+    #     makes the flag describe the last item only.
+    n_flags = _sticky_flags(repo, res)
+    if n_flags < 1:
+        raise AnalysisError('R36(d): no any-of flag found (DecRoAffine.__call__ `sw` expected)')
     if n_round < 1 or n_perm < 2:
         raise AnalysisError('R36: anchors vanished (%d rounded locals, %d sp_trans calls)' % (n_round, n_perm))
     pos, _r = rounded_flows(ast.parse(POS_A).body[0])
@@ -141,3 +147,60 @@ def run(repo):
     res.inst({'self-test': 'positive example flagged'}, True)
     res.inst({'self-test': 'negative example silent'}, True)
     return res
+
+
+def _sticky_flags(repo, res):
+    n_flags = 0
+    for fi in repo.all_functions():
+        if fi.module in ('deco', 'cpt_solver_bkp'):
+            continue
+        body = fi.node.body
+        # candidates: name = <bool constant> at some block level, followed later in the same block by a for loop
+        def scan(stmts):
+            nonlocal n_flags
+            for i, st in enumerate(stmts):
+                if isinstance(st, ast.Assign) and len(st.targets) == 1 and isinstance(st.targets[0], ast.Name) and \
+                        isinstance(st.value, ast.Constant) and isinstance(st.value.value, bool):
+                    flag = st.targets[0].id
+                    init = st.value.value
+                    for j in range(i + 1, len(stmts)):
+                        lp = stmts[j]
+                        if not isinstance(lp, ast.For):
+                            if any(isinstance(x, ast.Name) and x.id == flag and isinstance(x.ctx, ast.Store)
+                                   for x in ast.walk(lp)):
+                                break
+                            continue
+                        inner = [x for x in ast.walk(lp) if isinstance(x, ast.Assign) and
+                                 any(isinstance(t, ast.Name) and t.id == flag for t in x.targets)]
+                        if not inner:
+                            continue
+                        read_after = any(isinstance(x, ast.Name) and x.id == flag and isinstance(x.ctx, ast.Load)
+                                         for later in stmts[j + 1:] for x in ast.walk(later))
+                        if not read_after:
+                            break
+                        loopvars = {x.id for x in ast.walk(lp.target) if isinstance(x, ast.Name)}
+                        n_flags += 1
+                        bad = None
+                        for a in inner:
+                            top_level = any(a is s_ for s_ in lp.body)
+                            from_item = any(isinstance(x, ast.Name) and x.id in loopvars for x in ast.walk(a.value))
+                            if top_level and from_item and not (isinstance(a.value, ast.BoolOp) and any(
+                                    isinstance(x, ast.Name) and x.id == flag for x in ast.walk(a.value))):
+                                bad = a
+                        ok = bad is None
+                        res.functions.add(fi.fq)
+                        res.inst({'function': fi.fq, 'any-of flag': flag, 'initial': init, 'only_switched_under_tests': ok}, ok)
+                        if not ok:
+                            res.fail(Finding(RULE, fi.fq, 'any-of flag `%s` overwritten per item' % flag,
+                                             '%s initialises `%s = %s` before a loop, reads it after the loop, and inside the '
+                                             'loop assigns it unconditionally from the current item (`%s`): the flag then '
+                                             'describes the last item only, not whether any item had the property'
+                                             % (fi.fq, flag, init, ntext(bad)[:40]), repo.where(fi, bad),
+                                             {'props': ['C12', 'C13']}))
+                        break
+                for fld in ('body', 'orelse', 'finalbody'):
+                    sub = getattr(st, fld, None)
+                    if isinstance(sub, list) and not isinstance(st, (ast.FunctionDef, ast.AsyncFunctionDef, ast.ClassDef)):
+                        scan(sub)
+        scan(body)
+    return n_flags
